@@ -48,3 +48,132 @@ def expected_update(prog2: gen.Program, idx, agg):
 
 
 AGG_TOL = {"UPGrad": (2e-5, 2e-6), "DualProj": (2e-5, 2e-6), "MGDA": (1e-6, 1e-7), "Krum": (1e-9, 1e-9)}
+
+
+# ----------------------------------------------------------------------------- state snapshots (C06, C13, C20)
+
+
+def _grad_of(t):
+    import warnings
+
+    with warnings.catch_warnings():  # reading .grad of a non-leaf warns
+        warnings.simplefilter("ignore")
+        return t.grad
+
+
+def full_state(tensors) -> list:
+    """Per tensor: dict(data clone, data_ptr, version, grad object id / clone / version / storage ptr)."""
+    res = []
+    for t in tensors:
+        g = _grad_of(t)
+        res.append({
+            "data": t.detach().clone(),
+            "ptr": t.data_ptr(),
+            "ver": t._version,
+            "gid": None if g is None else id(g),
+            "g": None if g is None else g.detach().clone(),
+            "gver": None if g is None else g._version,
+            "gptr": None if g is None else g.data_ptr(),
+        })
+    return res
+
+
+def state_changes(before: list, after: list, bitwise_grad: bool = True) -> list:
+    """List of (index, what) for every observable difference between two full_state() snapshots."""
+    out = []
+    for i, (b, a) in enumerate(zip(before, after)):
+        if a["ptr"] != b["ptr"]:
+            out.append((i, "data_ptr"))
+        if a["ver"] != b["ver"]:
+            out.append((i, "_version"))
+        if not _same(a["data"], b["data"]):
+            out.append((i, "data"))
+        if (a["g"] is None) != (b["g"] is None):
+            out.append((i, "grad None-ness"))
+        elif a["g"] is not None:
+            if not _same(a["g"], b["g"]):
+                out.append((i, "grad value"))
+            elif bitwise_grad and (a["gid"] != b["gid"] or a["gver"] != b["gver"] or a["gptr"] != b["gptr"]):
+                out.append((i, "grad object/version"))
+    return out
+
+
+def _same(x, y) -> bool:
+    if x.shape != y.shape or x.dtype != y.dtype:
+        return False
+    return bool(torch.equal(x, y) or (torch.isnan(x) == torch.isnan(y)).all() and torch.equal(
+        torch.nan_to_num(x), torch.nan_to_num(y)))
+
+
+def storage_range(t) -> tuple:
+    """[begin, end) byte range of the storage backing t (empty storages give begin == end)."""
+    s = t.untyped_storage()
+    return (s.data_ptr(), s.data_ptr() + s.nbytes())
+
+
+def overlaps(r1, r2) -> bool:
+    return r1[0] < r2[1] and r2[0] < r1[1] and r1[0] != r1[1] and r2[0] != r2[1]
+
+
+# ----------------------------------------------------------------------------- mtl helpers (C02, C05, C06, C13, C20)
+
+
+def as_container(lst, how: str):
+    """Present a list of tensors as another Iterable kind."""
+    if how == "list":
+        return list(lst)
+    if how == "tuple":
+        return tuple(lst)
+    if how == "iter":
+        return iter(list(lst))
+    if how == "gen":
+        return (t for t in list(lst))
+    if how == "dictkeys":  # insertion-ordered, re-iterable, not a Sequence
+        return {t: None for t in lst}.keys()
+    raise KeyError(how)
+
+
+def mtl_kwargs(prog: gen.MTLProgram, tp: str = "list", sp: str = "list", feat: str = "list") -> dict:
+    """Valid keyword arguments of mtl_backward for a gen.build_mtl program.
+    tp / sp: 'default' (argument omitted) or a container kind of as_container;  feat: 'list' | 'tuple' |
+    'single' (the bare tensor, only when there is one feature)."""
+    kw = {"losses": list(prog.losses)}
+    if feat == "single" and len(prog.features) == 1:
+        kw["features"] = prog.features[0]
+    elif feat == "tuple":
+        kw["features"] = tuple(prog.features)
+    else:
+        kw["features"] = list(prog.features)
+    if tp != "default":
+        outer = [as_container(g, tp) for g in prog.tasks_params]
+        kw["tasks_params"] = tuple(outer) if tp == "tuple" else outer
+    if sp != "default":
+        kw["shared_params"] = as_container(prog.shared, sp)
+    return kw
+
+
+def mtl_reference(prog2: gen.MTLProgram, agg):
+    """Oracle on the twin: (J over shared params with row i = d losses[i] / d shared, dict id(param) -> update)
+    using one torch.autograd.grad call per loss."""
+    upd = {}
+    rows = []
+    for i, loss in enumerate(prog2.losses):
+        gs = torch.autograd.grad(loss, prog2.shared, retain_graph=True, allow_unused=True)
+        rows.append(torch.cat([(g if g is not None else torch.zeros_like(s)).reshape(-1)
+                               for g, s in zip(gs, prog2.shared)]))
+        own = prog2.tasks_params[i]
+        if own:
+            go = torch.autograd.grad(loss, own, retain_graph=True, allow_unused=True)
+            for p, g in zip(own, go):
+                g = g if g is not None else torch.zeros_like(p)
+                upd[id(p)] = upd[id(p)] + g if id(p) in upd else g.clone()
+    J = torch.stack(rows)
+    v = agg(J)
+    for s, u in zip(prog2.shared, gen.split_like(v, prog2.shared)):
+        upd[id(s)] = u
+    return J, upd
+
+
+def mtl_all_tensors(prog: gen.MTLProgram) -> list:
+    """Every tensor of an MTL program whose state is observed (leaves first, then features and losses)."""
+    return prog.all_leaves() + list(prog.features) + list(prog.losses)
